@@ -8,7 +8,7 @@ pid, x, checks = sys.argv[1], sys.argv[2], sys.argv[3:]
 rnd = os.environ.get("ROUND", "1")
 src = f"/tmp/seed-{pid}/{x}" if rnd == "1" else f"/tmp/seed{rnd}-{pid}/{x}"
 # round 2 seeds are stored as <ID>-c / <ID>-d
-suffix = {"1": {"a": "a", "b": "b"}, "2": {"a": "c", "b": "d"}, "3": {"a": "e", "b": "f"}, "4": {"a": "g", "b": "h"}, "5": {"a": "i", "b": "j"}, "6": {"a": "k", "b": "l"}, "7": {"a": "m", "b": "n"}, "8": {"a": "o", "b": "p"}, "9": {"a": "q", "b": "r"}}[rnd][x]
+suffix = {"1": {"a": "a", "b": "b"}, "2": {"a": "c", "b": "d"}, "3": {"a": "e", "b": "f"}, "4": {"a": "g", "b": "h"}, "5": {"a": "i", "b": "j"}, "6": {"a": "k", "b": "l"}, "7": {"a": "m", "b": "n"}, "8": {"a": "o", "b": "p"}, "9": {"a": "q", "b": "r"}, "10": {"a": "s", "b": "t"}}[rnd][x]
 dst = f"/verif/seeded/{pid}-{suffix}"
 # CONFIRM_LOG=<file>: output of an earlier tools/confirm_seed.sh run for this seed (confirmations can then run in
 # parallel in their own worktrees while the checks, which patch /repo, run one after the other)
